@@ -128,6 +128,47 @@ Section Top.
     - unfold gm in Gl. destruct (any_pre has_pre (reqs_of crit)); auto.
   Qed.
 
+  (* the same with the matching mode pinned down: the target is admitted by the edge's requirement in
+     the mode findMatches uses for a list reqs of requirements that versions known to the client place
+     on the target's package -- prerelease matching only if that list has more than one element and
+     one of them names a prerelease itself *)
+  Theorem edges_sat_rule fuel g f t rqv ty :
+    RESOLVE fuel = Ok g -> In (f, t, rqv, ty) (g_edges g) ->
+    exists tv d reqs l,
+      nth_error (g_nodes g) t = Some tv /\ In d reqs /\ rq_ver d = rqv /\ rq_type d = ty /\
+      (forall r, In r reqs -> rq_name r = vk_name tv /\ exists par lr, c_requirements par = Ok lr /\ In r lr) /\
+      gm c_versions c_matching has_pre constraint_ok match_pre ver_lt root (any_pre has_pre reqs) (rq_key d) = Ok l /\
+      In tv l.
+  Proof.
+    intros H He. start H st HI U B.
+    destruct (graph_edge_origin _ _ _ _ _ _ _ _ _ Hwf _ HI U _ B _ _ _ _ He)
+      as (fv & tv & d & par & crit & Hf & Ht & Gc & Hd & E1 & E2 & Hp & Hc).
+    destruct (inv_crit _ _ _ _ _ _ _ _ _ _ HI _ _ Gc) as [A1 _ A3 A4 _ _].
+    assert (Hr : In d (reqs_of crit)) by (unfold reqs_of; apply in_map_iff; exists (d, par); auto).
+    destruct (A1 _ Hc _ Hr) as (l & Gl & Hl).
+    exists tv, d, (reqs_of crit), l. repeat split; auto.
+    - unfold reqs_of in H0. apply in_map_iff in H0 as ([r' p'] & Er & Hin). simpl in Er. subst r'. eapply A3; eauto.
+    - unfold reqs_of in H0. apply in_map_iff in H0 as ([r' p'] & Er & Hin). simpl in Er. subst r'.
+      destruct (A4 _ _ Hin) as (E0 & lr & Rl & Dl & _). eauto.
+  Qed.
+
+  Lemma resolve_root_concrete fuel st : RESOLVE_STATE fuel = Ok st -> vk_type root = version_type_concrete.
+  Proof.
+    unfold resolve_state_fuel. destruct (N.eqb (vk_type root) version_type_concrete) eqn:E; simpl; [|discriminate].
+    intros _. apply N.eqb_eq; auto.
+  Qed.
+
+  (* every node is reachable from the root along edges that are requirements of their source version,
+     for clients whose MatchingVersions answers are Concrete versions *)
+  Theorem reachable_req fuel g i w :
+    (forall k l v, c_matching k = Ok l -> In v l -> vk_type v = version_type_concrete) ->
+    RESOLVE fuel = Ok g -> nth_error (g_nodes g) i = Some w ->
+    reach_req c_requirements (g_nodes g) (g_edges g) i.
+  Proof.
+    intros Hc H Hi. start H st HI U B.
+    eapply graph_reachable_req; eauto. eapply resolve_root_concrete; eauto.
+  Qed.
+
   Theorem reachable fuel g i w :
     RESOLVE fuel = Ok g -> nth_error (g_nodes g) i = Some w -> reach_idx (g_edges g) i.
   Proof. intros H Hi. start H st HI U B. eapply graph_reachable; eauto. Qed.
@@ -323,6 +364,56 @@ Qed.
 
 Theorem false_marker_refuted_stale : ~ false_marker_full.
 Proof. exact (refutes_marker_full _ _ _ _ _ stale_witness). Qed.
+
+(* ---------- edges that are not requirements of their source version ---------- *)
+Definition edges_sound_full : Prop :=
+  forall c_versions c_requirements c_matching marker_true has_pre constraint_ok match_pre ver_lt root g,
+    client_wf c_versions c_requirements c_matching ->
+    (forall v l, c_requirements v = Ok l -> NoDup (map rq_name l)) ->
+    resolve c_versions c_requirements c_matching marker_true has_pre constraint_ok match_pre ver_lt root = Ok g ->
+    edges_sound_clause c_requirements g.
+
+Lemma no_req_b_spec l pkg rqv ty d :
+  no_req_b l pkg rqv ty = true -> In d l -> rq_ver d = rqv -> rq_type d = ty -> rq_name d = pkg -> False.
+Proof.
+  unfold no_req_b. intros H Hin E1 E2 E3. rewrite forallb_forall in H. specialize (H _ Hin).
+  subst. rewrite !bytes_eqb_refl in H. simpl in H.
+  assert (deptype_eqb (rq_type d) (rq_type d) = true) by (apply deptype_eqb_eq; auto).
+  rewrite H0 in H. discriminate.
+Qed.
+
+Definition refutes_sound (t : table) (root : vkey) (i j : nat) (rqv : bytes) (ty : deptype) : Prop :=
+  table_ok_b t = true /\
+  exists g v w l, tab_resolve t root = Ok g /\ In (i, j, rqv, ty) (g_edges g) /\
+    nth_error (g_nodes g) i = Some v /\ nth_error (g_nodes g) j = Some w /\
+    tab_requirements t v = Ok l /\ no_req_b l (vk_name w) rqv ty = true.
+
+Lemma refutes_sound_full t root i j rqv ty : refutes_sound t root i j rqv ty -> ~ edges_sound_full.
+Proof.
+  intros (Hok & g & v & w & l & Hr & He & Hi & Hj & Hl & Hn) Full.
+  destruct (table_ok _ Hok) as [W N].
+  destruct (Full _ _ _ _ _ _ _ _ _ _ W N Hr i j rqv ty v w He Hi Hj) as (l' & d & Rl & Dl & E1 & E2 & E3).
+  rewrite Hl in Rl. inversion Rl; subst l'.
+  eapply no_req_b_spec; eauto.
+Qed.
+
+(* F-C08-4: q 2.0 (requires x>=1.0) is pinned, then replaced by q 1.0 (requires x without a
+   specifier); the information (x>=1.0, q 2.0) stays in the criterion of x and buildGraph, which
+   finds parents by package, draws it as an edge from q 1.0 *)
+Lemma staleedge_witness :
+  refutes_sound ex_staleedge_table ex_staleedge_root 3 1 (bs ">=1.0") [].
+Proof.
+  unfold refutes_sound. split; [vm_compute; reflexivity|].
+  eexists; eexists; eexists; eexists.
+  split; [vm_compute; reflexivity|].
+  split; [vm_compute; auto 10|].
+  split; [vm_compute; reflexivity|].
+  split; [vm_compute; reflexivity|].
+  split; vm_compute; reflexivity.
+Qed.
+
+Theorem edges_sound_refuted_stale : ~ edges_sound_full.
+Proof. exact (refutes_sound_full _ _ _ _ _ _ staleedge_witness). Qed.
 
 (* ---------- non-vacuity: a universe that forces a backtrack ---------- *)
 Lemma example_backtrack :
